@@ -1473,6 +1473,65 @@ pub(super) fn gen_cfg(rng: &mut Rng) -> ObsCfg {
     }
 }
 
+/// True if, after some refresh-type operation of `ops`, the prefix called `name` is removed
+/// entirely (its withdrawal, or the drop / stale purge / LLGR purge of a peer that had
+/// announced it) and announced again later.  Used only to recognise the one open finding.
+pub(super) fn recreated_after_refresh(cfg: &ObsCfg, ops: &[Op], name: &str) -> bool {
+    let is = |pfx: usize| format!("{}", prefix(cfg, pfx)) == name;
+    for (r, o) in ops.iter().enumerate() {
+        if !matches!(o, Op::ExportPolicy { .. } | Op::RouteRefresh) {
+            continue;
+        }
+        let announcers: Vec<usize> = ops
+            .iter()
+            .filter_map(|o| match o {
+                Op::Announce { peer, pfx, .. } if is(*pfx) => Some(*peer),
+                _ => None,
+            })
+            .collect();
+        let mut removed_at = None;
+        for (i, o) in ops.iter().enumerate().skip(r + 1) {
+            let removes = match o {
+                Op::Withdraw { pfx, .. } => is(*pfx),
+                Op::PeerDown { peer } | Op::StalePurge { peer } | Op::LlgrPurge { peer } => announcers.contains(peer),
+                _ => false,
+            };
+            if removes {
+                removed_at = Some(i);
+                break;
+            }
+        }
+        if let Some(i) = removed_at {
+            if ops.iter().skip(i + 1).any(|o| matches!(o, Op::Announce { pfx, .. } if is(*pfx))) {
+                return true;
+            }
+        }
+    }
+    false
+}
+
+/// The same history with every refresh running on an empty event queue: everything queued is
+/// delivered right before a wire ROUTE-REFRESH and right after an export-policy change
+/// (whose SoftResetOut event is then processed before any later RIB operation happens).
+fn without_read_ahead(ops: &[Op]) -> Vec<Op> {
+    let mut out = Vec::with_capacity(ops.len() * 2);
+    for o in ops {
+        match o {
+            Op::RouteRefresh => {
+                out.push(Op::Deliver { k: 100_000 });
+                out.push(o.clone());
+            }
+            Op::ExportPolicy { .. } => {
+                out.push(Op::Deliver { k: 100_000 });
+                out.push(o.clone());
+                out.push(Op::Deliver { k: 100_000 });
+            }
+            _ => out.push(o.clone()),
+        }
+    }
+    out
+}
+
 #[test]
 fn run() {
     let params = Params::from_args_env();
@@ -1628,18 +1687,18 @@ fn run() {
                     .filter(|d| d.contains("missing from the neighbour's view"))
                     .filter_map(|d| d.split(' ').next().map(|x| x.to_string()))
                     .collect();
-                let recreated = missing.iter().any(|m| {
-                    let announces = cur
-                        .iter()
-                        .filter(|o| matches!(o, Op::Announce { pfx, .. } if format!("{}", prefix(&cfg, *pfx)) == *m))
-                        .count();
-                    let removed = cur.iter().any(|o| match o {
-                        Op::Withdraw { pfx, .. } => format!("{}", prefix(&cfg, *pfx)) == *m,
-                        Op::PeerDown { .. } | Op::StalePurge { .. } | Op::LlgrPurge { .. } => true,
-                        _ => false,
-                    });
-                    announces >= 1 && (announces >= 2 || removed)
-                });
+                // (1) structure: after a refresh-type operation was issued, N was removed
+                //     entirely and announced again (that is what makes the refresh walk read
+                //     the new incarnation while the events of the old one are still queued)
+                let recreated = missing.iter().any(|m| recreated_after_refresh(&cfg, &cur, m));
+                // (2) control experiment: the same history with every refresh running on an
+                //     empty event queue (no read-ahead possible) must NOT fail; a defect that
+                //     does not need the read-ahead keeps its generic signature
+                let recreated = recreated && {
+                    let ctl = without_read_ahead(&cur);
+                    let o = rt.block_on(run_history(&cfg, &ctl, &listener));
+                    o.harness_err.is_none() && o.failure.is_none()
+                };
                 if recreated && !missing.is_empty() {
                     trigger = "refresh-read-ahead-of-recreated-prefix".to_string();
                 }
